@@ -22,11 +22,14 @@
 (*              nul describe what it yields from there)]                   *)
 (*   fault   : BOOLEAN     the payload reader fails once, transiently      *)
 (*   debug   : BOOLEAN     Runtime.Debug (the request is dumped)           *)
-(*   auth    : BOOLEAN     an auth writer is present                       *)
+(*   auth    : BOOLEAN     the operation has a (body-inspecting) auth writer *)
+(*   defauth : BOOLEAN     Runtime.DefaultAuthentication is such a writer  *)
+(*                         (in force when the operation has none)          *)
 (*   k       : Nat         it calls GetBody k times                        *)
 (* Contents are identified by tokens `ids` (MC: indices; TV: len + SHA-256 *)
 (* computed by the driver over the bytes it supplied):                      *)
-(*   ids.payload, ids.files[i][j]                                          *)
+(*   ids.payload, ids.ref (reference encoding of a value payload by the    *)
+(*   same producer instance), ids.files[i][j]                              *)
 (*                                                                         *)
 (* CodeBody is the transcription of the code, BodyOK the property C11 on    *)
 (* one observation of what was sent.                                        *)
@@ -164,6 +167,8 @@ CodeFieldPairs(in) ==
       qs == IF IsMultipart(in) THEN [i \in 1..Len(ps) |-> [k |-> IF WireName(ps[i].k) = <<>> THEN <<>> ELSE WireName(ps[i].k)[1], v |-> ps[i].v]] ELSE ps
   IN IF Mutant = "dropfield" /\ qs # <<>> THEN Tail(qs) ELSE qs
 
+HasWriter(in) == in.auth \/ in.defauth
+
 \* the getBody override: state [streaming, copied, bodyIsBuf, buf, stream, shown, fault, err]
 \* streaming: the request body is not r.buf (reader payload or multipart pipe)
 \* fault: the stream fails ONCE (transiently) after delivering `fault` more units (-1 = never)
@@ -193,12 +198,15 @@ CodeAuth(in, streaming, content, fault) ==
   LET s0 == [streaming |-> streaming, copied |-> FALSE, bodyIsBuf |-> ~streaming,
              buf |-> IF streaming THEN <<>> ELSE content, stream |-> IF streaming THEN content ELSE <<>>, shown |-> <<>>,
              fault |-> IF streaming THEN fault ELSE -1, err |-> FALSE]
-      s1 == IF in.auth THEN GetBodyTimes(s0, in.k) ELSE s0
-      late == in.debug /\ in.auth /\ Mutant = "debuglategetbody"
+      \* the writer in force - the operation's, else the runtime's default - runs inside buildHTTP, after the body
+      \* source was chosen; mutant "defaultupfront": the default runs before anything was built (GetBody = nil)
+      upfront == Mutant = "defaultupfront" /\ ~in.auth /\ in.defauth
+      s1 == IF HasWriter(in) /\ ~upfront THEN GetBodyTimes(s0, in.k) ELSE s0
+      late == in.debug /\ HasWriter(in) /\ ~upfront /\ Mutant = "debuglategetbody"
       s2 == IF late THEN GetBodyOnce(s1) ELSE s1
       \* what the transport reads: the reader captured when the request was created
       sent == IF s1.bodyIsBuf THEN s2.buf ELSE s2.stream
-  IN [shown |-> s1.shown, sent |-> sent,
+  IN [shown |-> IF upfront THEN [i \in 1..in.k |-> <<>>] ELSE s1.shown, sent |-> sent,
       \* a fault still pending when the transport reads the stream fails the send
       err |-> s1.err \/ (s2.fault >= 0 /\ ~s1.bodyIsBuf /\ s2.fault < Len(s2.stream))]
 
@@ -261,6 +269,8 @@ BodyOK(in, ids, o) ==
        [] kind = "produced" ->
             /\ o.producers = <<in.media>>                            \* the producer registered for the media type, once
             /\ o.payload = <<ids.payload>>                           \* its output is what is sent
+            /\ ids.payload = ids.ref                                 \* ... and is THE encoding of the value by that producer
+                                                                     \* (a reference encoding made with the same instance)
             /\ o.ctmedia = in.media
        [] kind = "raw" ->
             /\ o.payload = <<ids.payload>>                           \* exactly the reader's bytes
@@ -282,6 +292,7 @@ WhyBody(in, ids, o) ==
   ELSE IF kind = "empty" THEN "body-sent-without-payload"
   ELSE IF kind \in {"produced", "raw"} THEN
          (IF o.payload # <<ids.payload>> THEN "sent-bytes-differ-from-payload"
+          ELSE IF kind = "produced" /\ ids.payload # ids.ref THEN "producer-output-differs-from-its-reference-encoding"
           ELSE IF kind = "produced" /\ o.producers # <<in.media>> THEN "wrong-producer"
           ELSE "content-type-header")
   ELSE IF kind = "urlencoded" THEN
@@ -297,8 +308,15 @@ WhyBody(in, ids, o) ==
 \* (in particular: what auth saw = what is sent = the whole payload)
 MayFail(in) == in.fault
 
+\* which writer is consulted: the operation's own, else the runtime's default; never both
+PlacementOK(in, opSaw, defSaw) ==
+  /\ in.auth => defSaw = <<>>
+  /\ ~in.auth => opSaw = <<>>
+  /\ ~in.defauth => defSaw = <<>>
+InForceSaw(in, opSaw, defSaw) == IF in.auth THEN opSaw ELSE defSaw
+
 \* what auth saw is what is sent, however many times it asks
 AuthOK(in, shown, sent) ==
-  /\ Len(shown) = (IF in.auth THEN in.k ELSE 0)
+  /\ Len(shown) = (IF HasWriter(in) THEN in.k ELSE 0)
   /\ \A i \in 1..Len(shown) : shown[i] = sent
 =============================================================================
